@@ -12,5 +12,8 @@ CHECK = ScenarioCheck(
     "same direct-drive generator as C09 (capacities 0, < 1 packet, exact multiples of the packet size so that held+size == capacity and == capacity+1 both occur, large; overload bursts of mixed droppable/undroppable packets with and without drop callback; multi-hop); checked: drop iff droppable and capacity>0 and held+size>capacity with held reconstructed from the trace, every packet forwarded xor dropped exactly once and unaltered, drop callback exactly once at the drop instant",
     TRUSTED, ASSUME, spec_scn=True)
 
+from props.c09 import _extra_cov
+CHECK.extra_cov = _extra_cov
+
 def run(tier, seed, replay):
     return CHECK.run(tier, seed, replay)
